@@ -2,7 +2,9 @@ package rules
 
 import (
 	"fmt"
+	"go/constant"
 	"go/token"
+	"go/types"
 	"strings"
 
 	"golang.org/x/tools/go/ssa"
@@ -293,4 +295,98 @@ func checkRowsUnmodified(w *core.World, r *core.Report, rule string) {
 	}
 	r.Check(bad == "" && n > 0, rule, "row grouping: rows are appended unmodified", badPos, fmt.Sprintf("%d append site(s) write the row element itself", n),
 		"a sink row can be shown cut or altered instead of whole (or an error): "+bad)
+}
+
+// staticCallSites returns the static call sites of g in the library and whether g is also used as
+// a value (method value, closure operand, go/defer), in which case its callers are not all known.
+func staticCallSites(w *core.World, g *ssa.Function) ([]ssa.CallInstruction, bool) {
+	var sites []ssa.CallInstruction
+	escapes := false
+	for _, fn := range w.LibFuncs {
+		for _, in := range allInstrs(fn) {
+			if c, ok := in.(ssa.CallInstruction); ok && core.StaticCallee(c) == g {
+				if _, isCall := c.(*ssa.Call); isCall {
+					sites = append(sites, c)
+				} else {
+					escapes = true
+				}
+				for _, a := range c.Common().Args {
+					if a == ssa.Value(g) {
+						escapes = true
+					}
+				}
+				continue
+			}
+			for _, op := range in.Operands(nil) {
+				if op != nil && *op == ssa.Value(g) {
+					escapes = true
+				}
+			}
+		}
+	}
+	if g.Object() != nil && g.Object().Exported() {
+		escapes = true
+	}
+	return sites, escapes
+}
+
+// vmStepFn resolves the function that holds the VM's per-instruction flag protocol (the constant
+// ResetFlag(FLAG_WAIT) with the resume block behind its "was set" edge): Vm.Run itself, or an
+// unexported helper whose only call sites are in Vm.Run. nil when that cannot be established.
+func vmStepFn(w *core.World) *ssa.Function {
+	run := w.Func("vm", "(*Vm).Run")
+	if run == nil {
+		return nil
+	}
+	obj := w.Object("state", "FLAG_WAIT")
+	cst, ok := obj.(*types.Const)
+	if !ok {
+		return run
+	}
+	fWait, ok := constant.Int64Val(cst.Val())
+	if !ok {
+		return run
+	}
+	var holders []*ssa.Function
+	for _, fn := range w.FuncsIn("vm") {
+		if len(flagConstCalls(fn, fWait, stResetFlag)) > 0 {
+			holders = append(holders, fn)
+		}
+	}
+	if len(holders) != 1 {
+		return run
+	}
+	h := holders[0]
+	if h == run {
+		return run
+	}
+	sites, escapes := staticCallSites(w, h)
+	if escapes || len(sites) == 0 {
+		return nil
+	}
+	for _, c := range sites {
+		if c.Parent() != run {
+			return nil
+		}
+	}
+	return h
+}
+
+// behindFlagUnsetInCallers: fn is an unexported helper all of whose call sites are known, and each
+// of them is only reached on the "flag is not set" edge of a test in its caller (one level up).
+func behindFlagUnsetInCallers(w *core.World, fn *ssa.Function, flag int64) bool {
+	sites, escapes := staticCallSites(w, fn)
+	if escapes || len(sites) == 0 {
+		return false
+	}
+	for _, c := range sites {
+		unset, tests := flagTestEdges(c.Parent(), flag, false)
+		if len(tests) == 0 {
+			return false
+		}
+		if ok, _ := core.MustPass(c.(ssa.Instruction), core.NewCut().AddEdge(unset...)); !ok {
+			return false
+		}
+	}
+	return true
 }
